@@ -58,8 +58,8 @@ func GenerateLoginToken(op TokenOptions) (string, error) {
 	if op.Duration == 0 {
 		op.Duration = defaultDuration
 	}
-	now := time.Now().Second()
-	expiryCaveat := TimePrefix + strconv.Itoa(now+op.Duration)
+	now := time.Now().Unix()
+	expiryCaveat := TimePrefix + strconv.FormatInt(now+int64(op.Duration), 10)
 	err = mac.AddFirstPartyCaveat([]byte(expiryCaveat))
 	if err != nil {
 		return "", macaroonError(err)
